@@ -31,6 +31,8 @@ RELATED = {
     'C18_i': ['C18'], 'C19_i': ['C19', 'C05'],
     'C02_j': ['C02'], 'C03_j': ['C03'], 'C04_j': ['C04'], 'C08_j': ['C08'], 'C11_j': ['C11'], 'C12_j': ['C12'], 'C14_j': ['C14', 'C03'], 'C15_j': ['C15'],
     'C16_j': ['C16'], 'C20_j': ['C20', 'C08'],
+    'C01_k': ['C01'], 'C05_k': ['C05'], 'C06_k': ['C06'], 'C07_k': ['C07'], 'C09_k': ['C09'], 'C10_k': ['C10'], 'C13_k': ['C13'], 'C17_k': ['C17'],
+    'C18_k': ['C18'], 'C19_k': ['C19'],
     'C01_c': ['C01', 'C12'], 'C16_c': ['C16'], 'C17_c': ['C17'], 'C18_c': ['C18', 'C13'], 'C19_c': ['C19', 'C03'], 'C20_c': ['C20'],
 }
 
